@@ -58,7 +58,7 @@ ASSUMPTIONS = [
     'reduced in long double',
     'normalisation = (v - mean(kept)) / std(kept), kept = iterative (<= 5 passes) 3-sigma clip about the median; compared '
     'only if no sample is within 64 eps (|median| + 3 std) of a clip threshold (else undecidable, counted) and std(kept) > 0; '
-    'tolerance (4 n + 32) eps (|v| + |mean|) / std (mean and std of n samples accumulated at the data precision)',
+    'tolerance (8 n + 64) eps (|v| + |mean|) / std (mean and std of n samples accumulated at the data precision)',
     'the resolution of a Spectrum / TimeSeries along the integrated-out axis is not demanded (deliberately dt*tchans / '
     'df*fchans), nor the TimeSeries frequency label or the Spectrum time label',
     't_start compared to 1e-4 s (a pass through MJD is allowed), source_name after decoding bytes',
@@ -628,7 +628,7 @@ def check_normalised(R, got, raw, key, **detail):
     if keep.sum() < n:
         R.bucket('integrate:clip-active')
     want = (raw.astype(float) - m) / s
-    tol = (4 * n + 32) * eps * (np.abs(raw.astype(float)) + abs(m)) / s + 1e-300
+    tol = (8 * n + 64) * eps * (np.abs(raw.astype(float)) + abs(m)) / s + 1e-300
     got = np.asarray(got)
     if not R.check(got.shape == want.shape, key + ':length', got=list(got.shape), want=list(want.shape), **detail):
         return
